@@ -1,6 +1,7 @@
 package simkit
 
 import (
+	"bytes"
 	"crypto/sha256"
 	"encoding/hex"
 	"fmt"
@@ -532,13 +533,9 @@ func (w *World) applyLocked(c *Call, f Kind, choice, nparked int) result {
 	ev := &Event{Seq: w.Seq, T: time.Since(w.Start), Client: cl.Name, Tag: c.Tag, Bucket: c.bucketName(), Op: c.Op, Key: c.renderKey(),
 		Fault: f, Landed: landed, Size: len(c.Data), NParked: nparked, Choice: choice, Data: c.Data, Call: c}
 	if c.Data != nil {
-		h := fnv.New64a()
-		h.Write(c.Data)
-		ev.Sum = h.Sum64()
+		ev.Sum = payloadSum(c, c.Data)
 	} else if res.data != nil {
-		h := fnv.New64a()
-		h.Write(res.data)
-		ev.Sum = h.Sum64()
+		ev.Sum = payloadSum(c, res.data)
 		ev.Size = len(res.data)
 	} else if res.keys != nil {
 		ev.Size = len(res.keys)
@@ -624,4 +621,23 @@ func (w *World) StateHash() string {
 		}
 	}
 	return hex.EncodeToString(h.Sum(nil))[:16]
+}
+
+// payloadSum is the rendered checksum of written/read payloads. For buckets flagged LineSetSum
+// it is insensitive to line order (a multiset-of-lines sum): index files list entries in
+// completion order, which is not decided by the simulator when indistinguishable calls are
+// released together.
+func payloadSum(c *Call, data []byte) uint64 {
+	if c.Bucket != nil && c.Bucket.LineSetSum {
+		var sum uint64
+		for _, ln := range bytes.Split(data, []byte{'\n'}) {
+			h := fnv.New64a()
+			h.Write(ln)
+			sum += h.Sum64()
+		}
+		return sum
+	}
+	h := fnv.New64a()
+	h.Write(data)
+	return h.Sum64()
 }
